@@ -25,8 +25,12 @@ def fixture():
             {"token": "toking", "group": "g", "username": "tokadm", "permissions": ["admin"], "expires": "2099-01-01T00:00:00Z"},
             {"token": "tokroot", "group": "", "includeSubgroups": True, "username": "tokadm", "permissions": ["admin"], "expires": "2099-01-01T00:00:00Z"},
             {"token": "tokg1", "group": "g", "username": "tu", "permissions": ["present"], "expires": "2099-01-01T00:00:00Z"},
+            {"token": "obstok", "group": "g", "username": "watcher", "permissions": [], "expires": "2099-01-01T00:00:00Z"},
+            {"token": "msgtok", "group": "g", "username": "talker", "permissions": ["message"], "expires": "2099-01-01T00:00:00Z"},
+            {"token": "oldtok", "group": "g", "username": "late", "permissions": ["present"], "expires": "2001-01-01T00:00:00Z"},
             {"token": "whiptok", "group": "g", "username": "whipper", "permissions": ["present"], "expires": "2099-01-01T00:00:00Z"}]
-    return {"files": {"groups/g.json": json.dumps(g), "groups/h.json": json.dumps(h),
+    o = {"wildcard-user": {"password": {"type": "wildcard"}, "permissions": "present"}}
+    return {"files": {"groups/g.json": json.dumps(g), "groups/h.json": json.dumps(h), "groups/o.json": json.dumps(o),
                       "data/config.json": json.dumps({"writableGroups": True, "users": {"root": {"password": S1, "permissions": "admin"}}}),
                       "data/var/tokens.jsonl": "".join(json.dumps(t) + "\n" for t in toks)},
             "sentinels": SENTINELS}
@@ -195,10 +199,12 @@ def whips():
     st = [["whip", "w1", "g", "whiptok", "", ""], ["whipreq", "w1", "PATCH", "none", "whiptok"], ["whipreq", "w1", "DELETE", "wrong", "whiptok"],
           ["whipreq", "w1", "DELETE", "none", "whiptok"], ["http", "stats", "GET", "/galene-api/v0/.stats", {}, "", "root", S1],
           ["whipreq", "w1", "DELETE", "same", "whiptok"],
-          ["whip", "w2", "g", "", "", ""], ["whip", "w3", "g", "", "obs", "obspw"], ["whip", "w4", "g", "", "bob", S3],
-          ["whip", "w5", "g", "tokh", "", ""], ["whip", "w6", "h", "whiptok", "", ""], ["whipreq", "w4", "DELETE", "none", ""]]
+          ["whip", "w2", "g", "", "", ""], ["whip", "w3", "g", "obstok", "", ""], ["whip", "w4", "o", "", "", ""],
+          ["whip", "w5", "g", "tokh", "", ""], ["whip", "w6", "h", "whiptok", "", ""], ["whip", "w7", "g", "msgtok", "", ""], ["whip", "w8", "g", "oldtok", "", ""],
+          ["whip", "w9", "g", "", "bob", S3], ["whipreq", "w4", "DELETE", "same", ""],
+          ["whip", "w10", "g", "whiptok", "", ""], ["whipreq", "w10", "PATCH", "wrong", "whiptok"], ["whipreq", "w10", "DELETE", "same", "whiptok"]]
     meta = {"w1": dict(X0, granted=1), "w2": dict(X0, granted=0), "w3": dict(X0, granted=0), "w4": dict(X0, granted=1), "w5": dict(X0, granted=0),
-            "w6": dict(X0, granted=0), "stats": dict(X0, addr="any")}
+            "w6": dict(X0, granted=0), "w7": dict(X0, granted=0), "w8": dict(X0, granted=0), "w9": dict(X0, granted=0), "w10": dict(X0, granted=1), "stats": dict(X0, addr="any")}
     return [{"name": "whip-sessions", "fixture": fixture(), "steps": st}], meta
 
 
@@ -304,6 +310,7 @@ def run_table(rep, w, tier, pid, replay=None):
     cond = [e for e in reqs if e["x"].get("hdr")]
     rep.cov["conditional_requests"] = {"%s/%s/%s" % (h, f, st): sum(1 for e in cond if (e["x"]["hdr"], e["x"]["form"], e["status"]) == (h, f, st))
                                        for (h, f, st) in sorted({(e["x"]["hdr"], e["x"]["form"], e["status"]) for e in cond})}
+    rep.cov["whip_exchanges"] = ["%s %s %s%s -> %s" % (e["ev"], e.get("name"), e.get("method", "POST"), ("/" + e["how"]) if e.get("how") else "", e.get("status")) for e in events if e["ev"] in ("whip", "whipreq")]
     rep.cov["crash_points_exercised"] = sorted({b.get("crash") for b in behs if b.get("crash")})
     rep.cases(len(events), len({json.dumps([e.get("method"), e.get("path"), e["x"].get("class"), e.get("status"), e["x"].get("form"), e["x"].get("hdr")]) for e in reqs}))
     rep.cov["rule"] = (rep.cov.get("rule", "") + " | http: one evaluation = one real HTTP request to the real server; distinct = distinct (method, path, row class, status, header form) tuples").strip(" |")
